@@ -6,7 +6,7 @@ Require Extraction.
 Require Import ExtrOcamlBasic.
 From JsonSyntax Require Import Base.Prelude Base.Value Base.Unicode Model.Kind Spec.KindSpec
   Model.Parser Model.EntryPoints Model.Compare Model.Object Model.CodeMapNav
-  Model.Printer Spec.Minimal Spec.Layout.
+  Model.Printer Spec.Minimal Spec.Layout Model.Unordered.
 
 Extraction Language OCaml.
 Set Extraction KeepSingleton.
@@ -36,4 +36,5 @@ Extraction "model.ml"
   object_iter_mapped get_mapped_entries_with_index try_from_json_at fragment_count
   (* printer *)
   print_with pretty compact inline pretty_print compact_print inline_print to_string
-  pre_compute_size string_literal printed_string_size ser_min layout_text layout.
+  pre_compute_size string_literal printed_string_size ser_min layout_text layout
+  unordered_eq.
